@@ -83,6 +83,7 @@ func exec(o *vrt.Obs, w *b2fx.PeerWorld) {
 	o.Count("lib_bytes_judged", int64(res.LibBytes))
 	o.Count("proposal_blocks_judged", int64(len(res.Blocks)))
 	o.Count("frames_from_lib_judged", int64(len(res.Received)))
+	o.Count("peer_turns_holding_traffic_back", int64(res.HeldTurns))
 	o.Count("frames_to_lib_delivered", int64(len(res.Delivered)))
 	for _, n := range res.DataBlocks {
 		o.Count("data_blocks_from_lib", int64(n))
